@@ -28,7 +28,25 @@ TUpdate == IsEvent("update") /\ PropUpdate(Req(Ev), Ev.accepted) /\ ObsOK(Ev)
 TDelete == IsEvent("delete") /\ PropDelete(Ev.name, Ev.accepted) /\ ObsOK(Ev)
 TPods   == IsEvent("pods")   /\ SetPods(Ev.name, Ev.has) /\ ObsOK(Ev)
 
+\* two requests handled CONCURRENTLY by the webhook (a deletion whose pod listing is in progress while a second request
+\* arrives): whatever the interleaving, the pair of verdicts and the recorded topology must be explained by handling
+\* the two requests one after the other in SOME order (each step as the property demands)
+RQ(x) == [kind |-> x.op, name |-> x.name, acc |-> x.accepted,
+          r |-> IF x.op = "delete" THEN <<>> ELSE Req(x)]
+After(i, q) == IF ~q.acc THEN i ELSE IF q.kind = "delete" THEN Drop(i, q.name) ELSE Put(i, q.r)
+Cond(i, q) == ~q.acc \/
+              /\ CASE q.kind = "create" -> q.name \notin DOMAIN i
+                    [] q.kind = "update" -> q.name \in DOMAIN i
+                    [] OTHER            -> q.name \in DOMAIN i /\ Kids(i, q.name) = {} /\ q.name \notin pods
+              /\ WellFormedOf(After(i, q))
+TRace == /\ IsEvent("race")
+         /\ UNCHANGED pods
+         /\ \E o \in {<<RQ(Ev.a), RQ(Ev.b)>>, <<RQ(Ev.b), RQ(Ev.a)>>} :
+               /\ (Cond(info, o[1]) /\ Cond(After(info, o[1]), o[2])) = TRUE
+               /\ info' = After(After(info, o[1]), o[2])
+         /\ ObsOK(Ev)
+
 TraceInit == \E i \in Starts : TraceStart(i) /\ Init
-TraceNext == TCreate \/ TUpdate \/ TDelete \/ TPods \/ (SegDone /\ UNCHANGED vars)
+TraceNext == TCreate \/ TUpdate \/ TDelete \/ TPods \/ TRace \/ (SegDone /\ UNCHANGED vars)
 TraceSpec == TraceInit /\ [][TraceNext]_<<vars, tvars>>
 =============================================================================
